@@ -1,11 +1,46 @@
 PROPS["C09"] = dict(
     level="exploration",
-    technique="wip",
-    level_text="wip", level_note="wip",
-    phases=[dict(name="frames", harness="c09.cpp", flavor="asan", mode="frames", cases=dict(quick=3200, thorough=60000)),
+    technique="independent sender + reference receiver (own RC4/CRC-32/TKIP mixing/Michael, EVP-CCM, PBKDF2/PRF/EAPOL MICs, own 802.11 encoder/parser) "
+              "deciding must-decrypt / must-not / either for every frame handed to the real WEPDecrypter / WPA2Decrypter, under ASan/UBSan",
+    level_text="Every frame (positive, corrupted, wrong/absent key, hostile) is first judged by a reference receiver that shares no code with libtins; the real engine's "
+               "verdict, the cleared protected flag, the untouched 802.11 header and the decrypted LLC/SNAP payload (byte-exact, or field-exact for IPv4/UDP) are compared "
+               "after each decrypt() call. Handshake histories (beacons, messages 1-4 with adjacent retransmissions, message-1 restarts, M3/M4 repeated after completion, rekeying, "
+               "interleaved stations, foreign networks, wrong passphrase) are checked after every frame against get_keys() (PTK byte-exact) and both callbacks. "
+               "Hostile part: every body length 0..64 on the WEP, TKIP and CCMP paths of stations with known keys and mutated real frames up to 2400 bytes; no exception may escape decrypt(). "
+               "Payload lengths 0..2300 are swept systematically per cipher (each length at least once per cipher in the quick tier).",
+    level_note="Trusted: the reference primitives (self-validated during development against the IEEE 802.11i TKIP/Michael/PBKDF2 test vectors and by decrypting and "
+               "byte-identically re-encrypting the captures in tests/src/wpa2_decrypt_test.cpp and wep_decrypt_test.cpp), OpenSSL's EVP CCM / HMAC / PBKDF2. "
+               "TKIP's Michael MIC is not demanded (ICV valid + Michael invalid => either verdict). A frame whose integrity verifies under a key known for another "
+               "address pair, frames with data subtypes 4..7/12..15, protocol version != 0 or QoS+Order get verdict 'either' (safety only). Payloads are LLC/SNAP with an opaque "
+               "ethertype or a well-formed IPv4/UDP packet; a verified plaintext that is not such a payload only has to be handled without an escaping exception.",
+    phases=[dict(name="frames", harness="c09.cpp", flavor="asan", mode="frames", cases=dict(quick=4000, thorough=100000)),
             dict(name="handshake", harness="c09.cpp", flavor="asan", mode="handshake", cases=dict(quick=2000, thorough=40000)),
-            dict(name="hostile", harness="c09.cpp", flavor="asan", mode="hostile", cases=dict(quick=2600, thorough=60000))],
-    rule="wip",
-    floors=dict(any={"distinct": 1000}),
-    assumptions=[],
+            dict(name="hostile", harness="c09.cpp", flavor="asan", mode="hostile", cases=dict(quick=3900, thorough=200000))],
+    rule="frames: case = world (2 BSSIDs with WEP-40/104 keys, 4 stations with random 80-byte PTKs, TKIP and CCMP) + 10 frames (cipher rotates, payload length swept 0..2300 "
+         "plus boundary lengths, to-DS/from-DS/4-address/(WEP) no-DS, QoS or not, random flags/fragment/sequence/TID, IV/PN incl. 0 and all-ones), each followed by 3 negatives "
+         "(bit flip in IV/body/ICV-MIC/header, truncation, extension, no key, key bit flip, other station's key, key removed, other engine). handshake: case = 1-3 networks "
+         "(passphrase, SSID, 1-2 BSSIDs; registered by beacon or by address, unregistered, wrong passphrase) x 1-4 stations, merged event list checked after every event. "
+         "hostile: even cases sweep body length (case/2 mod 65) with 30 bodies over the three cipher paths, odd cases run 24 stacked mutations of 4 valid frames. "
+         "distinct = distinct (cipher, frame bytes prefix, length) / distinct event history; every frame is non-trivial (it reaches the key look-up of an engine holding keys)",
+    floors=dict(any={
+        "distinct": 50000,
+        "positive:wep/plain": 5000, "positive:tkip/plain": 5000, "positive:ccmp/plain": 5000, "frames:wep40": 2000, "frames:wep104": 2000,
+        "chk:payload-bytes-equal": 20000, "chk:payload-ipv4-udp-equal": 3000, "chk:payload-empty": 100,
+        "len:plaintext-multiple-of-16": 800, "len:empty-payload": 80,
+        "hdr:variant-0": 2000, "hdr:variant-0-qos": 2000, "hdr:variant-1": 2000, "hdr:variant-1-qos": 2000, "hdr:variant-2": 2000, "hdr:variant-2-qos": 2000, "hdr:variant-3": 400,
+        "neg:bitflip-iv": 2000, "neg:bitflip-body": 2000, "neg:bitflip-trailer": 2000, "neg:bitflip-header": 2000, "neg:truncate": 2000, "neg:append": 2000,
+        "neg:no-key": 4000, "neg:key-bitflip": 4000, "neg:other-stations-key": 4000, "neg:key-of-this-station-removed": 4000, "neg:other-engine": 2000,
+        "verdict:must-not-decrypt/got-false": 100000, "verdict:must-decrypt/got-true": 25000,
+        "parse:built-through-api": 5000, "parse:wrapped-in-radiotap": 5000,
+        "hs:histories": 1500, "hs:completed/ccmp": 1500, "hs:completed/tkip": 1000, "hs:completed-rekey": 500, "hs:dup-M1": 500, "hs:dup-M2": 500, "hs:dup-M3": 500, "hs:dup-M4": 500,
+        "hs:restart-after-M1": 300, "hs:restart-after-M2": 300, "hs:restart-after-M3": 300, "hs:M3-M4-again-after-completion": 400, "hs:M3-retransmitted-with-new-replay-counter": 400,
+        "hs:data-under-learnt-key/plain": 5000, "hs:data-without-known-key": 1500, "chk:session-key-equal": 30000,
+        "hs:completed-on-unregistered-network": 100, "hs:completed-with-wrong-passphrase-registered": 50,
+        "hostile:short-body-lengths-swept": 1500, "hostile:wep-short-body": 8000, "hostile:tkip-short-body": 8000, "hostile:ccmp-short-body": 6000,
+        "hostile:wep-mutated": 8000, "hostile:tkip-mutated": 8000, "hostile:ccmp-mutated": 8000, "hostile:ccmp-body-below-16-attempted": 15}),
+    assumptions=["the pairwise key of a protected data frame is the one of its (receiver addr1, transmitter addr2) pair; WEP keys are registered per BSSID (addr1 to-DS, addr2 from-DS, addr3 otherwise; "
+                 "four-address WEP frames only demand decryption when all four addresses carry the key)",
+                 "handshake orderings are those a conforming AP/station emits: adjacent retransmissions, restarts with message 1, M3/M4 repeated after completion; beacons of a network precede its handshakes",
+                 "frames between message 1 and message 4 under the not-yet-installed key, and frames under a replaced key after a rekey, are not generated (either verdict would be defensible)",
+                 "CCMP bodies shorter than 16 bytes reach the engine only in 15 designated cases (tagged kf=ccmp-short-body) because they kill the worker on a tree without the length check"],
 )
